@@ -22,6 +22,7 @@ type Result struct {
 	Values  map[string]string `json:"values,omitempty"`
 	Outputs map[string]string `json:"outputs,omitempty"` // per-solver raw first lines when unknown
 	Cached  bool              `json:"cached,omitempty"`
+	Error   bool              `json:"error,omitempty"` // every solver rejected the query text (generator bug)
 }
 
 type solverSpec struct {
@@ -59,6 +60,7 @@ type Solver struct {
 	Timeout  time.Duration
 	CacheDir string // "" disables the cache
 	Confirm  bool   // thorough: confirm unsat by a second solver where it answers
+	Single   bool   // only the first solver (Houdini candidates)
 	mu       sync.Mutex
 	Stats    map[string]int
 }
@@ -136,6 +138,12 @@ func (s *Solver) Check(q string) Result {
 	return r
 }
 
+// CheckBudget is Check with a different per-query budget (no cache write for unknown).
+func (s *Solver) CheckBudget(q string, budget time.Duration) Result {
+	c := &Solver{Timeout: budget, CacheDir: s.CacheDir, Stats: map[string]int{}, Single: true}
+	return c.Check(q)
+}
+
 // CheckQuick runs only the first solver with a short budget and no cache
 // (used for vacuity canaries, where only "unsat" matters).
 func (s *Solver) CheckQuick(q string, budget time.Duration) Result {
@@ -170,6 +178,9 @@ func (s *Solver) check(q string) Result {
 		return r
 	}
 	outputs[solvers[0].name] = st
+	if s.Single {
+		return Result{Status: "unknown", Solver: solvers[0].name, TimeS: time.Since(t0).Seconds(), Outputs: outputs}
+	}
 	// stage 2: race all
 	ctx, cancel := context.WithCancel(context.Background())
 	defer cancel()
@@ -196,7 +207,20 @@ func (s *Solver) check(q string) Result {
 		}
 		outputs[a.name] = a.st
 	}
-	return Result{Status: "unknown", Solver: "portfolio", TimeS: time.Since(t0).Seconds(), Outputs: outputs}
+	res := Result{Status: "unknown", Solver: "portfolio", TimeS: time.Since(t0).Seconds(), Outputs: outputs}
+	nerr := 0
+	for _, o := range outputs {
+		if strings.Contains(o, "(error") || strings.Contains(o, "Parse Error") {
+			nerr++
+		}
+	}
+	if nerr == len(outputs) && nerr > 0 {
+		res.Error = true
+		s.mu.Lock()
+		s.Stats["solver-error"]++
+		s.mu.Unlock()
+	}
+	return res
 }
 
 func (s *Solver) confirm(q string, r *Result) {
